@@ -31,10 +31,12 @@ func c05(p *Prog, r *Report) {
 	const R4 = "C05.issuer-lookup"
 	const R5 = "C05.issuer-evaluate-error-discipline"
 	const R6 = "C05.every-issuer-registered"
+	const R7 = "C05.iteration-independence"
 	r.Rule(R1, "responses = make(len(requests)); slot stores use the request loop index; emit loop writes one status byte per slot with present <=> non-empty slot, same index throughout; decoder mirrors the layout", 5)
 	r.Rule(R2, "values stored into a slot are empty or issuer.Evaluate(request)'s first result on the err == nil edge", 1)
 	r.Rule(R3, "no return/panic inside the request loop; a failing issuer does not end the search (control returns to the issuer loop)", 2)
 	r.Rule(R4, "issuer list = i.issuers[request.Type()]; key match = request.TruncatedTokenKeyID() vs last byte of that issuer's TokenKeyID(); the matched issuer evaluates the current request", 3)
+	r.Rule(R7, "no condition guarding issuer.Evaluate inside the request loop reads state written by another iteration (non-induction loop phi, or a map/slice/cell allocated outside the loop and stored to inside it; the iteration's own slot excepted)", 1)
 	r.Rule(R6, "the batch issuer's constructor registers each issuer argument under issuer.Type() on every iteration (none is dropped)", 1)
 	r.Rule(R5, "type1/type2 issuer Evaluate: success only behind the success edges of decode, evaluate and encode steps; every error result is branched on or returned", 7)
 
@@ -304,6 +306,40 @@ func c05(p *Prog, r *Report) {
 		}
 	}
 	r.Check(cont, R3, "a failing issuer does not end the search", p.InstrPos(ev), "err != nil edge returns to the issuer loop", "after issuer.Evaluate fails control cannot reach another issuer of the list: a later matching issuer is never tried")
+
+	// R7: whether a request is evaluated depends on that request alone
+	{
+		own := func(addr ssa.Value) bool {
+			ia, ok := addr.(*ssa.IndexAddr)
+			return ok && ia.X == ssa.Value(resp) && s.Of(ia.Index).String() == reqIdx
+		}
+		var guards []Atom
+		where := ev.Block()
+		if helperCall != nil {
+			where = helperCall.Block()
+		}
+		guards = append(guards, s.ff.At(where)...)
+		nG, carried := 0, ""
+		for _, a := range guards {
+			in, ok := a.V.(ssa.Instruction)
+			if !ok || !outer.Blocks[in.Block()] {
+				// a condition computed outside the loop is the same for every request
+				if ph, isPhi := a.V.(*ssa.Phi); !isPhi || !outer.Blocks[ph.Block()] {
+					continue
+				}
+			}
+			nG++
+			if w := loopCarried(p, a.V, outer, own); w != "" && carried == "" {
+				carried = w
+			}
+		}
+		if helperCall != nil && carried == "" {
+			if w := loopCarried(p, helperCall, outer, own); w != "" {
+				carried = "per-request helper argument: " + w
+			}
+		}
+		r.Check(carried == "", R7, "guards of issuer.Evaluate depend on the current request only", p.InstrPos(ev), fmt.Sprintf("%d guards inside the request loop, none reads loop-carried state", nG), "whether this request is evaluated depends on "+carried+": an earlier (failing) request can change the entry of a later one")
+	}
 
 	// R6: the constructor registers every issuer it is given under the issuer's
 	// own token type - no iteration of its loop may skip the registration
